@@ -193,7 +193,8 @@ struct Writer {
     nix::DataSet *target; nix::DataType dt; nix::NDSize count, offset; const std::vector<std::string> *vals; bool direct;
     template<typename T> std::string run() {
         // the buffer handed to the library must hold what the request transfers
-        size_t need = count.size() ? nelms(count) : nelms(target->dataExtent());
+        // no count: a view transfers its whole window; an array, given an offset, the one element there
+        size_t need = count.size() ? nelms(count) : (!dynamic_cast<nix::DataView *>(target) && offset.size()) ? 1 : nelms(target->dataExtent());
         // (a request for more than 2^32 elements cannot be backed by any buffer here: it goes to the library as it is, which must refuse it)
         if (vals->size() < need && need <= (1ull << 32)) throw ProtoError("write buffer shorter than the request");
         if (!direct && MA<T>::usable && vals->size() == need && isWhole(*target, count, offset) && (wholeTransfers++ % 2 == 0)) {
@@ -210,7 +211,7 @@ struct Writer {
 struct Reader {
     const nix::DataSet *source; nix::DataType dt; nix::NDSize count, offset; size_t n; bool direct;
     template<typename T> std::string run() {
-        size_t need = count.size() ? nelms(count) : nelms(source->dataExtent());
+        size_t need = count.size() ? nelms(count) : (!dynamic_cast<const nix::DataView *>(source) && offset.size()) ? 1 : nelms(source->dataExtent());
         if (n < need && need <= (1ull << 32)) throw ProtoError("read buffer shorter than the request");
         if (!direct && MA<T>::usable && n == need && isWhole(*source, count, offset) && (wholeTransfers++ % 2 == 0)) {
             return listTok(MA<T>::read(source, count.size()));
